@@ -304,6 +304,11 @@ def _reorder_shard_g(points):
 
 
 def replay(ctx, case):
+    if "h" in case:
+        from .. import netrun
+        from . import c01
+
+        return netrun.replay_case(c01.oracle, case)
     k = case["kind"]
     if k == "seq":
         p = roundtrip(case["seq"])
@@ -397,5 +402,22 @@ def run(ctx):
         exhaustive=True,
         bound="short alphabets exhaustive to the stated lengths; longer sequences by enumerated families",
     )
-    return ctx.finish("exploration", cov, ["reference decoder = the tree's mlw_decode.c (the property names it as the reference); hardware order = vfw/ref/traversal.py (A3)",
-                                          "sanitizer build: clang -fsanitize=address,undefined -UNDEBUG, leak detection off"])
+    # (N) the whole path from a .tflite file: reader layout change ([out,in]/OHWI -> [in,out]/HWIO), graph rewrites, slicing, reorder and encode.
+    # Every weight-bearing operator of the compiled networks must find, through its WEIGHT registers, a stream that decodes to the SOURCE
+    # model's weights in hardware order - decided by executing the stream (functional executor of C01) against the reference kernels.
+    from .. import netrun, sweep
+    from ..tfl import nets
+    from . import c01
+
+    winst = ["conv1x1", "conv3x3", "conv3x3s2", "conv3x3d2", "dw3x3", "dw3x3s2", "fc", "fc_fc_sq", "conv_c3_sq", "tconv_s2", "conv_pair_shared", "conv3x3_c1"]
+    if not quick:
+        winst += ["conv3x3d2x1", "conv3x3d1x2", "dw3x3d2x1", "conv5x5_c24", "conv2x2v", "dw5x5v", "dw3x3_dm2", "conv3x3d3", "conv3x3d4x3", "conv_pair_shared_d3", "conv_pair_shared_d3d1", "conv3x3s3"]
+    hs = sweep.histories(nets.STARTS_Q if quick else nets.STARTS_T, winst, 1)
+    rule = cov.pop("rule") + "; (N) %d single-operator networks with weights (square / cubic weight shapes included) x configurations compiled from .tflite bytes and executed" % len(hs)
+    unit_eval, unit_nt = cov.pop("evaluations"), cov.pop("distinct_nontrivial")
+    return netrun.run(ctx, c01.oracle, "exploration", rule=rule,
+                      assumptions=["reference decoder = the tree's mlw_decode.c (the property names it as the reference); hardware order = vfw/ref/traversal.py (A3)",
+                                   "sanitizer build: clang -fsanitize=address,undefined -UNDEBUG, leak detection off",
+                                   "net level: the functional executor decodes the programmed weight stream with the reference decoder and the traversal model; a wrong order shows as a wrong output or a stream that does not decode to the operator's volume"],
+                      plan=[("weightorderxC2" if quick else "weightorderxC8", hs, "c2" if quick else "c8")], nontrivial_stat="executions", key_fn=lambda key, name: "net|" + key + "|" + (name.split(">", 1)[1].split(" @")[0] if ">" in name else name),
+                      extra_cov=dict(cov, unit_evaluations=unit_eval, unit_nontrivial=unit_nt))
